@@ -11,26 +11,22 @@ macro_rules! p {
         }
     };
 }
-p!(c08_announce_n0, 4, h::c08_announce_step::<0, 1>());
+// model capacity is 2 in this crate (--cfg verif_cap2): stored values are themselves maps and
+// CBMC's cost grows quadratically with the capacity; N stored peers + the announcer <= 2.
+p!(c08_announce_n0, 3, h::c08_announce_step::<0, 1>());
 p!(c08_announce_n1, 4, h::c08_announce_step::<1, 2>());
-p!(c08_announce_n2, 5, h::c08_announce_step::<2, 3>());
-p!(c08_announce_n3, 6, h::c08_announce_step::<3, 4>());
 p!(c08_scrape_n1_k1, 4, h::c08_scrape::<1, 1>());
-p!(c08_scrape_n2_k2, 5, h::c08_scrape::<2, 2>());
-p!(c08_clean_n0, 4, h::c08_clean_step::<0, 1>());
+p!(c08_scrape_n1_k2, 4, h::c08_scrape::<1, 2>());
+p!(c08_clean_n0, 3, h::c08_clean_step::<0, 1>());
 p!(c08_clean_n1, 4, h::c08_clean_step::<1, 2>());
-p!(c08_clean_n2, 5, h::c08_clean_step::<2, 3>());
-p!(c08_clean_n3, 6, h::c08_clean_step::<3, 4>());
-p!(c08_close_n2, 5, h::c08_close_step::<2, 3>());
+p!(c08_clean_n2, 4, h::c08_clean_step::<2, 2>());
+p!(c08_close_n1, 4, h::c08_close_step::<1, 2>());
+p!(c08_close_n2, 4, h::c08_close_step::<2, 2>());
 p!(c09_offers_n0_k1, 4, h::c09_offers_step::<0, 1, 1>());
-p!(c09_offers_n1_k2, 5, h::c09_offers_step::<1, 2, 2>());
-p!(c09_offers_n2_k2, 6, h::c09_offers_step::<2, 3, 2>());
-p!(c09_offers_n3_k2, 7, h::c09_offers_step::<3, 4, 2>());
+p!(c09_offers_n1_k1, 4, h::c09_offers_step::<1, 2, 1>());
+p!(c09_offers_n1_k2, 4, h::c09_offers_step::<1, 2, 2>());
+p!(c09_answer_n0, 4, h::c09_answer_step::<0, 1>());
 p!(c09_answer_n1, 4, h::c09_answer_step::<1, 2>());
-p!(c09_answer_n2, 5, h::c09_answer_step::<2, 3>());
-
-p!(probe_announce_base_1, 4, h::probe_announce_base::<1>());
-p!(probe_insert_base_1, 4, h::probe_insert_base::<1>());
 
 #[cfg(verif_pb_c08)]
 include!(env!("VERIF_PLAYBACK_FILE"));
